@@ -363,6 +363,7 @@ def long(case, ctx):
         f, ref, alpha, shape = f.T, ref.T, alpha[::-1], shape[::-1]
     f = gen.relayout(np.ascontiguousarray(f), case["layout"])
     ctx.tag("output>16384" if M > 16384 else None)
+    ctx.tag(f"kernel:2^{int(np.log2(M * m))}" if M * m >= 2**24 else None)
     ctx.tag(f"axis:{case['axis']}", "kernel>4M" if M * m > 2**22 else "kernel<=4M", "M_odd" if M % 2 else "M_even",
             "m_odd" if m % 2 else "m_even", "out:" + case["out"], "M=m" if M == m else "M>m")
     ctx.nontrivial_if(True)
@@ -383,6 +384,27 @@ def long(case, ctx):
                                           f"sample {tuple(int(v) for v in i)} by {float(err.max()):.3e} (tol {tol:.3e})")
     if "out" in kw and F is not kw["out"]:
         raise Violation("C01.long.out", "out= buffer is not the returned array")
+
+
+# --- kernels up to the memory limit: 2^24 .. 2^27.6 elements on one axis ----------------------------------------------
+
+@st.composite
+def giant_case(draw, tier="quick"):
+    # four cases in five above 2^26 elements (1 GiB of complex128 for the matrix alone)
+    K = int(2 ** (draw(st.floats(26.0, 27.6)) if draw(st.integers(0, 4)) else draw(st.floats(24.0, 26.0))))
+    top = int(np.sqrt(K))
+    m = int(np.exp(draw(st.floats(np.log(60.0), np.log(float(min(top, 12000)))))))
+    M = max(m, K // m + draw(st.integers(0, 2)))
+    return {"m": m, "M": M, "thin_in": draw(st.integers(1, 3)), "thin_out": draw(st.integers(1, 4)),
+            "axis": draw(st.integers(0, 1)), "alpha_thin": draw(gen.signed_log(1e-2, 0.4)),
+            "seed": draw(st.integers(0, 2**31 - 1)), "out": draw(st.sampled_from(["none", "none", "dirty"])),
+            "layout": "C", "unitary": draw(st.booleans())}
+
+
+hyp("C01", "giant", lambda tier: giant_case(tier),
+    "inputs of 60..12000 samples on one axis transformed over one full period with kernels of 2^24 .. 2^27.6 "
+    "elements (log-uniform; up to ~3 GB for the transform matrix, i.e. up to what the memory cap allows) vs an "
+    "FFT-based evaluation of the same sum, long axis first and long axis second", examples=(3, 5), budget_s=(400, 900), max_shards=2)(lambda case, ctx: [long(dict(case, axis=a), ctx) for a in (0, 1)] and None)
 
 
 # --- input planes of more than a million samples (both axes long), small output windows ------------------------
